@@ -72,6 +72,9 @@ func FromImage(name string, sim *core.Sim, log []Entry) *Disk {
 	for _, e := range log {
 		d.apply(e)
 	}
+	// the image's own history starts with what it was built from, so that an image of the
+	// image (a second crash) is complete
+	d.wlog = append([]Entry(nil), log...)
 	return d
 }
 
